@@ -45,9 +45,7 @@ func (g *gen) funBodyCase(params []int64, stmts []*N, suffix, bucket string, den
 		body = renderTokens(g.r, toks, density, true)
 		noTail = false
 	}
-	// the wrapper puts a line feed after the body: keep clear of the recorded CR look-ahead region across that seam too
-	tmp := fixCR(body + suffix + "\n")
-	body = tmp[:len(tmp)-1]
+	body += suffix
 	ptext := g.paramText(params)
 
 	want := strip(&N{Tag: tFun, Vals: append([]int64{-1}, params...), Kids: stmts})
@@ -232,7 +230,6 @@ func (g *gen) regexStatementEnds() {
 						} else {
 							want = &N{Tag: tProg, Kids: stmts}
 						}
-						src = fixCR(src)
 						got, errText := parseProgram(src)
 						obs, shown := "None", "syntax error: "+errText
 						if got != nil {
